@@ -89,12 +89,24 @@ Qed.
 Definition solo0 (c : config) (h : Z) : list obs * bool :=
   solo c (init_job c) (ntasks c) h 52 (view0 c) 0.
 
+(** no given peer stays silent when asked for this height *)
+Definition no_stall_at (c : config) (h : Z) : bool :=
+  forallb (fun p => negb (is_stall (c_beh c p h))) (job_peers c).
+
+Lemma view0_stall_free c h : no_stall_at c h = true -> stall_free c (init_job c) h (view0 c) = true.
+Proof.
+  intro H. unfold stall_free. apply forallb_forall. intros t Ht.
+  apply (proj1 (forallb_forall _ _) H (task_peer (init_job c) t)).
+  apply task_peer_in. apply (proj1 (Forall_forall _ _) (view0_valid c) t Ht).
+Qed.
+
 Lemma recheck_solo c h :
+  no_stall_at c h = true ->
   exists arr tn idx vlen retry,
     recheck c h = solo_state h arr tn idx vlen retry (PDone (snd (solo0 c h)))
                              (rev (fst (solo0 c h)) ++ init_log c).
 Proof.
-  unfold recheck.
+  intro Hns. unfold recheck.
   assert (Hinit : init_state (init_job c) [h]
                   = solo_state h (seq 0 (ntasks c)) (zeros (ntasks c)) (repeat 0 (ntasks c))
                                (ntasks c) 0 PStart (init_log c)).
@@ -109,7 +121,7 @@ Proof.
     rewrite skipn_all2 by (rewrite seq_length; lia). reflexivity. }
   rewrite Hsort.
   pose proof (sim c (init_job c) (ntasks c) h 52 317 (view0 c) [] (repeat 0 (ntasks c)) 0 (init_log c)) as Hs.
-  specialize (Hs (view0_valid c) (repeat_length _ _)).
+  specialize (Hs (view0_valid c) (view0_stall_free c h Hns) (repeat_length _ _)).
   assert (H1 : 51 - 0 < 52) by lia.
   assert (H2 : 4 * 52 <= 317) by lia.
   specialize (Hs H1 H2).
@@ -118,9 +130,10 @@ Proof.
   exists arr, tn, idx, vlen, retry. exact Hrun.
 Qed.
 
-Lemma recheck_log_solo c h : recheck_log c h = init_log c ++ fst (solo0 c h).
+Lemma recheck_log_solo c h :
+  no_stall_at c h = true -> recheck_log c h = init_log c ++ fst (solo0 c h).
 Proof.
-  unfold recheck_log. destruct (recheck_solo c h) as [arr [tn [idx [vlen [retry H]]]]]. rewrite H.
+  intro Hns. unfold recheck_log. destruct (recheck_solo c h Hns) as [arr [tn [idx [vlen [retry H]]]]]. rewrite H.
   unfold solo_state. cbn [s_log]. rewrite rev_app_distr, rev_involutive.
   unfold init_log. destruct (init_job c); reflexivity.
 Qed.
@@ -129,10 +142,15 @@ Lemma req_peers_init c l : req_peers (init_log c ++ l) = req_peers l.
 Proof. unfold init_log. destruct (init_job c); reflexivity. Qed.
 
 (** a peer that failed is not asked again *)
-Lemma recheck_no_reask c h :
-  distinct_peers c = true -> no_reask_from c [] (recheck_log c h) = true.
+Lemma recheck_done c h : no_stall_at c h = true -> all_done (recheck c h) = true.
 Proof.
-  intro Hd. rewrite recheck_log_solo. unfold solo0.
+  intro Hns. destruct (recheck_solo c h Hns) as [arr [tn [idx [vlen [retry H]]]]]. rewrite H. reflexivity.
+Qed.
+
+Lemma recheck_no_reask c h :
+  no_stall_at c h = true -> distinct_peers c = true -> no_reask_from c [] (recheck_log c h) = true.
+Proof.
+  intros Hns Hd. rewrite (recheck_log_solo c h Hns). unfold solo0.
   assert (Hnd : NoDup (map (task_peer (init_job c)) (view0 c))).
   { apply (Permutation_NoDup (Permutation_sym (view0_peers c))). apply nodup_nat_spec. exact Hd. }
   destruct (solo_requests c (init_job c) (ntasks c) h 52 (view0 c) 0 Hnd) as [H1 [H2 H3]].
@@ -160,7 +178,7 @@ Qed.
 
 (** what is asked and what is handed over *)
 Lemma recheck_events c h o :
-  In o (recheck_log c h) ->
+  no_stall_at c h = true -> In o (recheck_log c h) ->
   match o with
   | OInit l => l = job_peers c
   | OReq h' p => h' = h /\ In p (job_peers c) /\ (h <=? c_adv c p)%Z = true
@@ -168,7 +186,7 @@ Lemma recheck_events c h o :
                      /\ exists a, accepted (c_beh c p h) = Some a /\ bh = deliver_height h a
   end.
 Proof.
-  rewrite recheck_log_solo. unfold solo0. intro Hin. apply in_app_or in Hin. destruct Hin as [Hin|Hin].
+  intro Hns. rewrite (recheck_log_solo c h Hns). unfold solo0. intro Hin. apply in_app_or in Hin. destruct Hin as [Hin|Hin].
   - unfold init_log in Hin. pose proof (init_job_peers c) as Hp.
     destruct (init_job c); [inversion Hin|]. destruct Hin as [<-|[]]. exact Hp.
   - pose proof (solo_deliveries c (init_job c) (ntasks c) h 52 (view0 c) 0 o Hin) as H.
@@ -189,10 +207,10 @@ Definition few_peers (c : config) : bool := length (job_peers c) <=? max_retry.
 
 (** a servable height is delivered *)
 Lemma recheck_delivers c h :
-  servable c h = true -> no_wrong_at c h = true -> few_peers c = true ->
+  no_stall_at c h = true -> servable c h = true -> no_wrong_at c h = true -> few_peers c = true ->
   snd (solo0 c h) = true /\ exists p, In (ODeliver h p) (recheck_log c h).
 Proof.
-  intros Hs Hw Hf. unfold few_peers in Hf. apply Nat.leb_le in Hf. rewrite recheck_log_solo. unfold solo0.
+  intros Hns Hs Hw Hf. unfold few_peers in Hf. apply Nat.leb_le in Hf. rewrite (recheck_log_solo c h Hns). unfold solo0.
   destruct (solo_delivers c (init_job c) (ntasks c) h 52 (view0 c) 0) as [H1 [p Hp]].
   - unfold servable in Hs. apply existsb_exists in Hs. destruct Hs as [p [Hin Hp]].
     apply (Permutation_in _ (Permutation_sym (view0_peers c))) in Hin.
